@@ -162,6 +162,10 @@ func DrawOut(r *core.Run, hostileMode int, needURL bool) *Out {
 		s.Cfg.SPIssuer = "" // falls back to the IdP issuer
 	}
 	s.Cfg.IdPIssuer = str("out.idpissuer", s.Fed.IdPIssuer)
+	if s.Cfg.SPIssuer == "" && t.Int(3, "out.noissueratall") == 1 {
+		s.Cfg.IdPIssuer = "" // nothing to fall back to: the Issuer element is still there, empty
+		r.Probe("no_issuer_configured_at_all")
+	}
 	s.Cfg.ACS = str("out.acs", s.Fed.ACS)
 	if needURL {
 		s.Cfg.IdPSSOURL = urlPool[t.Int(len(urlPool), "out.ssourl")]
